@@ -180,6 +180,11 @@ func (h *Handler) HandleMessage(msg stanza.Message, t xmlstream.TokenReadEncoder
 
 	for i.Next() {
 		start, _ := i.Current()
+		// Skip anything that is not an element (eg. character data before the
+		// payload).
+		if start == nil {
+			continue
+		}
 		switch start.Name.Local {
 		case "received":
 			_, id := attr.Get(start.Attr, "id")
